@@ -620,6 +620,10 @@ def run(spec, tier, seed, replay=None):
         if os.path.realpath(REPO) != "/repo":
             # a run against a scratch tree must not leave ITS generated tables behind for the next run / a commit
             subprocess.run(["git", "-C", VERIF, "checkout", "--", "lean/OtelVerif/Gen"], capture_output=True)
+            # the committed copy may itself be stale and untracked generated files are not restored by git:
+            # regenerate this property's files from /repo (still under the lock)
+            env = {k: v for k, v in os.environ.items() if k != "VERIF_REPO"}
+            subprocess.run([sys.executable, os.path.join(VERIF, "tools", "regen.py"), spec.pid], env=env, capture_output=True)
         fcntl.flock(lock, fcntl.LOCK_UN)
         lock.close()
     # 3./4. correspond + search
